@@ -67,6 +67,8 @@ type Thread struct {
 	done   bool
 	Daemon bool // may stay blocked at the end of an execution without being a deadlock
 	rendez bool // woken as the receiving side of an unbuffered hand-off
+	vc     vclock
+	stack  []string // tracked methods this thread is inside (outermost first)
 }
 
 // Env is an environment event (timer firing, signal, end of input ...).
@@ -85,7 +87,9 @@ type Point struct {
 	Enabled        []int // canonical order: running thread first if enabled, other threads ascending, then env events (negative ids)
 	Chosen         int   // index into Enabled
 	RunningEnabled bool
-	Desc           string
+	Desc           string // only filled when Describe is set
+	SelCase        bool   // which ready case of a select fires (not a thread choice)
+	Fixed          bool // outside the exploration window: no alternatives are explored here
 }
 
 type PanicInfo struct {
@@ -113,12 +117,29 @@ type Sched struct {
 	Panics    []PanicInfo
 	Deadlock  string
 	StepLimit int
+	FastSteps int
 	Exceeded  bool
 	Diverged  string
 	timers    map[*vtime.Timer]*Env
+	// Closed reports every point as Fixed (set by the harness around set-up code whose
+	// interleavings are not the subject: it then runs under the canonical schedule only).
+	Closed bool
+	// Races switches the happens-before race check on.
+	Races      bool
+	RacesFound []Race
+	raceSeen   map[string]bool
+	shadow     map[shadowKey]*shadow
+	chans      map[uintptr]*chanClocks
+	atomics    map[uintptr]vclock
+	timerVC    map[*vtime.Timer]vclock
+	envByID    map[int]*Env
+	spawnVC    vclock // clock a thread started by the environment (timer callback) inherits
 	// TimerGate decides whether a timer may fire now (harness timing constraints).
 	TimerGate func(t *vtime.Timer) bool
 }
+
+// Describe makes every trace point carry a description (replays, violation reports).
+var Describe bool
 
 // S is the active scheduler (nil outside an execution).
 var S *Sched
@@ -133,7 +154,47 @@ func (s *Sched) logf(format string, a ...any) {
 
 // ---- thread side ----------------------------------------------------------------------------------
 
+// fast reports whether the running thread may simply go on: outside the exploration
+// window the canonical schedule keeps the running thread running while it is enabled,
+// so the hand-shake with the controller (and the trace entry) can be skipped.
+func (s *Sched) fast(t *Thread, o *op) (wakeMsg, bool) {
+	if !s.Closed || s.pendingR != nil || s.FastSteps > 20*s.StepLimit {
+		return wakeMsg{}, false
+	}
+	buffered := func(v reflect.Value) bool { return v.Cap() > 0 || s.closed[chanID(v)] }
+	switch o.kind {
+	case opYield:
+		return wakeMsg{}, true
+	case opLock:
+		return wakeMsg{}, !o.mu.locked
+	case opWait:
+		return wakeMsg{}, o.cond()
+	case opSend:
+		return wakeMsg{}, buffered(o.ch) && s.chanReady(o.ch, Send, t)
+	case opRecv:
+		return wakeMsg{}, buffered(o.ch) && s.chanReady(o.ch, Recv, t)
+	case opSelect:
+		for i, c := range o.cases {
+			if s.chanReady(c.ch, c.kind, t) {
+				if !buffered(c.ch) {
+					return wakeMsg{}, false
+				}
+				return wakeMsg{selIdx: i}, true
+			}
+		}
+		if o.hasDefault {
+			return wakeMsg{selIdx: -1}, true
+		}
+	}
+	return wakeMsg{}, false
+}
+
 func (s *Sched) park(t *Thread, o op) wakeMsg {
+	if m, ok := s.fast(t, &o); ok {
+		s.FastSteps++
+		s.syncEffect(t, &o, m.selIdx)
+		return m
+	}
 	t.op = o
 	s.events <- t
 	m := <-t.wake
@@ -166,6 +227,13 @@ func GoNamed(name string, f func()) *Thread {
 	}
 	t.op = op{kind: opStart}
 	s.threads = append(s.threads, t)
+	if s.spawnVC != nil {
+		t.vc = s.spawnVC.copy()
+	} else if p := s.cur; p != nil {
+		t.vc = p.vc.copy()
+		p.tick()
+	}
+	t.tick()
 	s.mu.Unlock()
 	s.wg.Add(1)
 	go func() {
@@ -268,6 +336,9 @@ func Close[C any](ch C) {
 	if s != nil && !s.killing {
 		s.park(s.cur, op{kind: opYield, tag: "close"})
 		s.closed[chanID(reflect.ValueOf(ch))] = true
+		c := s.chanClk(reflect.ValueOf(ch))
+		c.closeV = s.cur.vc.copy()
+		s.cur.tick()
 	}
 	reflect.ValueOf(ch).Close()
 }
@@ -297,6 +368,40 @@ func Wait(tag string, cond func() bool) {
 	s.park(s.cur, op{kind: opWait, cond: cond, tag: tag})
 }
 
+// Kind abstracts the thread's name: goroutines started by the library are "library-goroutine".
+func (t *Thread) Kind() string {
+	n := t.Name
+	if len(n) > 1 && n[0] == 't' && n[1] >= '0' && n[1] <= '9' {
+		return "library-goroutine"
+	}
+	if i := strings.Index(n, "("); i > 0 {
+		return n[:i]
+	}
+	return n
+}
+
+// Enter / Leave keep the per-thread stack of tracked methods (instrumented sources:
+// `defer vsched.Leave(vsched.Enter("Type.Method"))`).
+func Enter(name string) int {
+	s := S
+	if s == nil || s.killing || s.cur == nil || s.pendingR != nil {
+		return -1
+	}
+	t := s.cur
+	t.stack = append(t.stack, name)
+	return len(t.stack) - 1
+}
+
+func Leave(depth int) {
+	s := S
+	if depth < 0 || s == nil || s.killing || s.cur == nil {
+		return
+	}
+	if t := s.cur; depth <= len(t.stack) {
+		t.stack = t.stack[:depth]
+	}
+}
+
 // LiveNamed counts the threads whose name starts with prefix and that have not finished.
 func LiveNamed(prefix string) int {
 	n := 0
@@ -310,6 +415,13 @@ func LiveNamed(prefix string) int {
 	return n
 }
 
+// Window opens (true) or closes (false) the exploration window.
+func Window(open bool) {
+	if S != nil {
+		S.Closed = !open
+	}
+}
+
 // Logf appends to the execution's observation log.
 func Logf(format string, a ...any) {
 	if S != nil {
@@ -321,6 +433,7 @@ func Logf(format string, a ...any) {
 
 type Mutex struct {
 	locked bool
+	vc     vclock
 }
 
 func (m *Mutex) Lock() {
@@ -330,6 +443,7 @@ func (m *Mutex) Lock() {
 	}
 	s.park(s.cur, op{kind: opLock, mu: m})
 	m.locked = true
+	s.cur.vc.join(m.vc)
 }
 
 func (m *Mutex) Unlock() {
@@ -338,6 +452,8 @@ func (m *Mutex) Unlock() {
 	if s == nil || s.killing {
 		return
 	}
+	m.vc = s.cur.vc.copy()
+	s.cur.tick()
 	s.park(s.cur, op{kind: opYield, tag: "unlock"})
 }
 
@@ -349,6 +465,7 @@ func AddEnv(name string, once bool, enabled func() bool, fire func()) *Env {
 	s.nextEnv++
 	e := &Env{ID: -s.nextEnv, Name: name, Enabled: enabled, Fire: fire, Once: once}
 	s.envs = append(s.envs, e)
+	s.envByID[e.ID] = e
 	return e
 }
 
@@ -362,23 +479,37 @@ func (b timerBackend) Armed(t *vtime.Timer) {
 		return
 	}
 	s.nextEnv++
-	e := &Env{ID: -s.nextEnv, Name: fmt.Sprintf("timer(%v)", t.D), Once: true, timer: t}
+	e := &Env{ID: -s.nextEnv, Name: fmt.Sprintf("timer(%v)", t.D), Once: !t.IsTicker(), timer: t}
 	e.Enabled = func() bool { return t.Armed() && (s.TimerGate == nil || s.TimerGate(t)) }
+	var armVC vclock
+	if s.cur != nil {
+		armVC = s.cur.vc.copy()
+		s.cur.tick()
+	}
 	e.Fire = func() {
 		if t.IsFunc() {
 			fn := t.Func()
 			vtime.Consume(t)
+			s.spawnVC = armVC
+			if s.spawnVC == nil {
+				s.spawnVC = vclock{}
+			}
 			GoNamed(fmt.Sprintf("timer-callback(%v)", t.D), fn)
+			s.spawnVC = nil
 		} else {
 			vtime.Consume(t)
 			select {
 			case t.RawChan() <- vtime.Now():
+				c := s.chanClk(reflect.ValueOf(t.RawChan()))
+				c.nsent++
+				c.sends = append(c.sends, armVC.copy())
 			default:
 			}
 		}
 	}
 	s.timers[t] = e
 	s.envs = append(s.envs, e)
+	s.envByID[e.ID] = e
 }
 func (b timerBackend) Stopped(t *vtime.Timer) {
 	if e, ok := b.s.timers[t]; ok {
@@ -504,13 +635,15 @@ type Result struct {
 	Deadlock string
 	Exceeded bool
 	Diverged string
+	Races    []Race
 	Blocked  []string // threads still blocked (not done) when the main thread returned
 }
 
 // Run executes main as thread 0 under the schedule prefix (choice indexes); beyond
 // the prefix the canonical first choice is taken at every point.
 func Run(prefix []int, stepLimit int, setup func(s *Sched), main func()) *Result {
-	s := &Sched{events: make(chan *Thread, 4), closed: map[uintptr]bool{}, prefix: prefix, StepLimit: stepLimit, timers: map[*vtime.Timer]*Env{}}
+	s := &Sched{events: make(chan *Thread, 4), closed: map[uintptr]bool{}, prefix: prefix, StepLimit: stepLimit, timers: map[*vtime.Timer]*Env{},
+		envByID: map[int]*Env{}, raceSeen: map[string]bool{}, shadow: map[shadowKey]*shadow{}, chans: map[uintptr]*chanClocks{}, atomics: map[uintptr]vclock{}, timerVC: map[*vtime.Timer]vclock{}}
 	vtime.SetBackend(timerBackend{s})
 	S = s
 	if setup != nil {
@@ -521,7 +654,7 @@ func Run(prefix []int, stepLimit int, setup func(s *Sched), main func()) *Result
 	s.loop(mainT)
 	// teardown
 	s.killing = true
-	res := &Result{Trace: s.Trace, Log: s.Log, Panics: s.Panics, Deadlock: s.Deadlock, Exceeded: s.Exceeded, Diverged: s.Diverged}
+	res := &Result{Trace: s.Trace, Log: s.Log, Panics: s.Panics, Deadlock: s.Deadlock, Exceeded: s.Exceeded, Diverged: s.Diverged, Races: s.RacesFound}
 	for _, t := range s.threads {
 		if !t.done {
 			if !t.Daemon && s.Deadlock == "" {
@@ -562,7 +695,14 @@ func (s *Sched) loop(mainT *Thread) {
 				envIDs = append(envIDs, e.ID)
 			}
 		}
-		sort.Sort(sort.Reverse(sort.IntSlice(envIDs))) // -1, -2, ... creation order
+		// harness events (input, replies, signals) before timers, each in creation order
+		sort.Slice(envIDs, func(i, j int) bool {
+			ti, tj := s.envByID[envIDs[i]].timer != nil, s.envByID[envIDs[j]].timer != nil
+			if ti != tj {
+				return !ti
+			}
+			return envIDs[i] > envIDs[j]
+		})
 		en = append(en, envIDs...)
 		if len(en) == 0 && mainT.done {
 			return
@@ -587,7 +727,8 @@ func (s *Sched) loop(mainT *Thread) {
 		}
 		id := en[idx]
 		desc := ""
-		if id >= 0 {
+		if !Describe {
+		} else if id >= 0 {
 			desc = s.describe(s.threads[id])
 		} else {
 			for _, e := range s.envs {
@@ -596,7 +737,7 @@ func (s *Sched) loop(mainT *Thread) {
 				}
 			}
 		}
-		s.Trace = append(s.Trace, Point{Enabled: en, Chosen: idx, RunningEnabled: runningEnabled, Desc: desc})
+		s.Trace = append(s.Trace, Point{Enabled: en, Chosen: idx, RunningEnabled: runningEnabled, Desc: desc, Fixed: s.Closed})
 		if id < 0 {
 			for _, e := range s.envs {
 				if e.ID == id {
@@ -629,7 +770,7 @@ func (s *Sched) dispatch(t *Thread) {
 				ci = s.prefix[n] % len(cs)
 			}
 			if len(cs) > 1 {
-				s.Trace = append(s.Trace, Point{Enabled: cs, Chosen: ci, RunningEnabled: true, Desc: "select-case"})
+				s.Trace = append(s.Trace, Point{Enabled: cs, Chosen: ci, RunningEnabled: true, Desc: "select-case", SelCase: true, Fixed: s.Closed})
 			}
 			msg.selIdx = cs[ci]
 			c := t.op.cases[msg.selIdx]
@@ -675,6 +816,7 @@ func (s *Sched) dispatch(t *Thread) {
 		}
 		s.pendingR = recvT
 		s.cur = sendT
+		s.handoff(sendT, recvT)
 		recvT.op, sendT.op = op{}, op{}
 		recvT.wake <- rm
 		sendT.wake <- sm
@@ -686,6 +828,7 @@ func (s *Sched) dispatch(t *Thread) {
 		return
 	}
 	s.cur = t
+	s.syncEffect(t, &t.op, msg.selIdx)
 	t.op = op{}
 	t.wake <- msg
 	<-s.events
@@ -697,10 +840,13 @@ func (s *Sched) dispatch(t *Thread) {
 // while the running one was enabled) or an environment event chosen while some
 // thread was enabled.
 func cost(p Point) int {
-	if p.Desc == "select-case" {
+	if p.Chosen == 0 {
 		return 0
 	}
-	if p.Chosen == 0 {
+	if DeviationCost {
+		return 1
+	}
+	if p.SelCase {
 		return 0
 	}
 	id := p.Enabled[p.Chosen]
@@ -719,38 +865,56 @@ func cost(p Point) int {
 	return 0
 }
 
+// DeviationCost selects the cost model. false (preemption bounding): only taking
+// the processor from a runnable thread, or an environment event occurring while
+// a thread could run, costs 1; which thread runs next at a blocking point is
+// free. true (deviation bounding): every choice other than the canonical one
+// (running thread, else lowest thread id, else first environment event) costs 1.
+var DeviationCost bool
+
 // Explore enumerates all schedules with at most bound deviations, depth-first.
 // exec runs one schedule; visit is called for each execution. Returns the number
-// of executions. budget (0 = none) caps the number of executions.
-func Explore(bound int, budget int64, exec func(prefix []int) *Result, visit func(prefix []int, r *Result)) (n int64, capped bool) {
-	var rec func(prefix []int)
-	rec = func(prefix []int) {
+// of executions. budget (0 = none) caps the number of executions. With nshards > 1
+// the first-level subtrees are dealt round-robin: this call explores those with
+// index % nshards == shard (the root execution belongs to shard 0).
+func Explore(bound int, budget int64, shard, nshards int, exec func(prefix []int) *Result, visit func(prefix []int, r *Result)) (n int64, capped bool) {
+	child := 0
+	var rec func(prefix []int, depth int)
+	rec = func(prefix []int, depth int) {
 		if budget > 0 && n >= budget {
 			capped = true
 			return
 		}
 		r := exec(prefix)
-		n++
-		visit(prefix, r)
+		if depth > 0 || shard == 0 || nshards <= 1 {
+			n++
+			visit(prefix, r)
+		}
 		if r.Diverged != "" {
 			return
 		}
 		used := 0
 		for i := 0; i < len(r.Trace); i++ {
 			p := r.Trace[i]
-			if i >= len(prefix) {
+			if i >= len(prefix) && !p.Fixed {
 				for alt := 1; alt < len(p.Enabled); alt++ {
 					q := p
 					q.Chosen = alt
 					if used+cost(q) > bound {
 						continue
 					}
+					if depth == 0 && nshards > 1 {
+						child++
+						if child%nshards != shard {
+							continue
+						}
+					}
 					np := make([]int, 0, i+1)
 					for _, tp := range r.Trace[:i] {
 						np = append(np, tp.Chosen)
 					}
 					np = append(np, alt)
-					rec(np)
+					rec(np, depth+1)
 					if capped {
 						return
 					}
@@ -759,6 +923,240 @@ func Explore(bound int, budget int64, exec func(prefix []int) *Result, visit fun
 			used += cost(p)
 		}
 	}
-	rec(nil)
+	rec(nil, 0)
 	return n, capped
+}
+
+// ---- happens-before race detection -------------------------------------------------------------------------------
+//
+// Every thread carries a vector clock. Synchronisation operations transfer
+// clocks exactly as the Go memory model orders them: go statement -> start of
+// the goroutine; k-th send on a channel -> k-th receive (both directions for an
+// unbuffered channel; k-th receive -> (k+cap)-th send); close -> receive that
+// observes it; Unlock -> next Lock; atomic store -> atomic load that follows;
+// AfterFunc / NewTimer -> callback / receive from the timer channel. Acc (called
+// by the instrumented sources before every statement that reads or writes a
+// tracked field) reports a race when the previous conflicting access is not
+// ordered before the current one.
+
+type vclock []int32
+
+func (v vclock) get(i int) int32 {
+	if i < len(v) {
+		return v[i]
+	}
+	return 0
+}
+
+func (v *vclock) join(o vclock) {
+	for len(*v) < len(o) {
+		*v = append(*v, 0)
+	}
+	for i, c := range o {
+		if c > (*v)[i] {
+			(*v)[i] = c
+		}
+	}
+}
+
+func (v vclock) copy() vclock { return append(vclock(nil), v...) }
+
+func (t *Thread) tick() {
+	for len(t.vc) <= t.ID {
+		t.vc = append(t.vc, 0)
+	}
+	t.vc[t.ID]++
+}
+
+type chanClocks struct {
+	sends  []vclock // clocks of the sends not yet received
+	recvs  []vclock // clocks of completed receives (for the capacity edge)
+	nsent  int
+	closeV vclock
+}
+
+type shadowAccess struct {
+	tid   int
+	clk   int32
+	site  string
+	root  string // outermost tracked method the thread was inside
+	who   string // kind of thread
+	valid bool
+}
+
+type shadow struct {
+	w     shadowAccess
+	reads map[int]shadowAccess
+}
+
+// Race is one detected pair of unordered conflicting accesses.
+type Race struct {
+	Field        string
+	A, B         string // "r|w function"
+	RootA, RootB string // "outermost tracked method@kind of thread"
+}
+
+func (s *Sched) chanClk(v reflect.Value) *chanClocks {
+	id := chanID(v)
+	c := s.chans[id]
+	if c == nil {
+		c = &chanClocks{}
+		s.chans[id] = c
+	}
+	return c
+}
+
+// afterSend / afterRecv are called when the scheduler lets a thread perform the operation.
+func (s *Sched) afterSend(t *Thread, ch reflect.Value) {
+	if s.closed[chanID(ch)] {
+		return
+	}
+	c := s.chanClk(ch)
+	if k := c.nsent - ch.Cap(); ch.Cap() > 0 && k >= 0 && k < len(c.recvs) {
+		t.vc.join(c.recvs[k])
+	}
+	c.nsent++
+	c.sends = append(c.sends, t.vc.copy())
+	t.tick()
+}
+
+func (s *Sched) afterRecv(t *Thread, ch reflect.Value) {
+	c := s.chanClk(ch)
+	if len(c.sends) > 0 {
+		t.vc.join(c.sends[0])
+		c.sends = c.sends[1:]
+		if ch.Cap() > 0 {
+			c.recvs = append(c.recvs, t.vc.copy())
+			t.tick()
+		}
+		return
+	}
+	if c.closeV != nil {
+		t.vc.join(c.closeV)
+	}
+}
+
+// handoff: unbuffered send/receive pair.
+func (s *Sched) handoff(sender, receiver *Thread) {
+	sv := sender.vc.copy()
+	sender.vc.join(receiver.vc)
+	receiver.vc.join(sv)
+	sender.tick()
+	receiver.tick()
+}
+
+func (s *Sched) syncEffect(t *Thread, o *op, selIdx int) {
+	switch o.kind {
+	case opSend:
+		s.afterSend(t, o.ch)
+	case opRecv:
+		s.afterRecv(t, o.ch)
+	case opSelect:
+		if selIdx >= 0 && selIdx < len(o.cases) {
+			c := o.cases[selIdx]
+			if c.kind == Send {
+				s.afterSend(t, c.ch)
+			} else {
+				s.afterRecv(t, c.ch)
+			}
+		}
+	}
+}
+
+// Acc reports an access of the running thread to obj.field.
+func Acc(obj any, field string, write bool, site string) {
+	s := S
+	if s == nil || s.killing || !s.Races {
+		return
+	}
+	t := s.cur
+	if t == nil || s.pendingR != nil {
+		// between an unbuffered receive and Post two threads run; accesses there are not attributed
+		return
+	}
+	key := shadowKey{reflect.ValueOf(obj).Pointer(), field}
+	sh := s.shadow[key]
+	if sh == nil {
+		sh = &shadow{reads: map[int]shadowAccess{}}
+		s.shadow[key] = sh
+	}
+	for len(t.vc) <= t.ID {
+		t.vc = append(t.vc, 0)
+	}
+	if t.vc[t.ID] == 0 {
+		t.vc[t.ID] = 1
+	}
+	now := t.vc[t.ID]
+	// nothing new since this thread's last access of the same kind?
+	if write {
+		if sh.w.valid && sh.w.tid == t.ID && sh.w.clk == now && len(sh.reads) == 0 {
+			return
+		}
+	} else if ra, ok := sh.reads[t.ID]; ok && ra.clk == now {
+		return
+	}
+	me := shadowAccess{tid: t.ID, clk: now, site: site, root: site, who: t.Kind(), valid: true}
+	if len(t.stack) > 0 {
+		me.root = t.stack[0]
+	}
+	ordered := func(a shadowAccess) bool { return !a.valid || a.tid == t.ID || a.clk <= t.vc.get(a.tid) }
+	report := func(a shadowAccess, akind string) {
+		kind := "r"
+		if write {
+			kind = "w"
+		}
+		x, y := akind+" "+a.site, kind+" "+me.site
+		rx, ry := a.root+"@"+a.who, me.root+"@"+me.who
+		if rx > ry || (rx == ry && x > y) {
+			x, y = y, x
+			rx, ry = ry, rx
+		}
+		k := field + "|" + x + "|" + y + "|" + rx + "|" + ry
+		if !s.raceSeen[k] {
+			s.raceSeen[k] = true
+			s.RacesFound = append(s.RacesFound, Race{Field: field, A: x, B: y, RootA: rx, RootB: ry})
+		}
+	}
+	if !ordered(sh.w) {
+		report(sh.w, "w")
+	}
+	if write {
+		for _, ra := range sh.reads {
+			if !ordered(ra) {
+				report(ra, "r")
+			}
+		}
+		sh.w = me
+		for k := range sh.reads {
+			delete(sh.reads, k)
+		}
+	} else {
+		sh.reads[t.ID] = me
+	}
+}
+
+type shadowKey struct {
+	obj   uintptr
+	field string
+}
+
+// AtomicStore / AtomicLoad give sync/atomic its ordering (called by the vatomic shim after its scheduling point).
+func AtomicStore(addr any) {
+	s := S
+	if s == nil || s.killing || s.cur == nil {
+		return
+	}
+	k := reflect.ValueOf(addr).Pointer()
+	v := s.atomics[k]
+	v.join(s.cur.vc)
+	s.atomics[k] = v
+	s.cur.tick()
+}
+
+func AtomicLoad(addr any) {
+	s := S
+	if s == nil || s.killing || s.cur == nil {
+		return
+	}
+	s.cur.vc.join(s.atomics[reflect.ValueOf(addr).Pointer()])
 }
